@@ -366,8 +366,8 @@ def run(rep, tier, seed):
     max_n = 8
     seeds = [seed * 100 + i for i in range(5)]
     n_random = 20 if quick else 60
-    tree_nodes = 7
-    cap_trees = 30 if quick else 70
+    tree_nodes = 7 if quick else 9
+    cap_trees = 30 if quick else 90
     nums = [0, 1, 2, 3, 4]
 
     rep.assume("oracles: bounded.reftree.ref_valid / ref_open / ref_str, bounded.refeval."
